@@ -23,12 +23,19 @@
 //! one point at which code can run between "key unregistered" and "inner future destroyed". Meta line
 //! `#ondrop <c> <c2>`; the future obtained for `c2` is parked and handed out by the next `arrive <c2> …`
 //! (which then makes no call of its own), so that the case can go on polling it.
+//!
+//! `manual herd threads=<N> rounds=<R> [keys=<M>] [gate=none|clone|hash] [ballast=0|1] [out=ok|err|mix]`:
+//! simultaneous arrivals on real OS threads — a bounded SEARCH (not a proof) for executions in which leader
+//! election is not atomic; see `herd` below.
 use crate::world::*;
+use std::cell::Cell;
 use std::collections::{BTreeMap, BTreeSet};
 use std::future::Future;
+use std::hash::{Hash, Hasher};
 use std::pin::Pin;
+use std::sync::atomic::{AtomicBool, AtomicU64, AtomicUsize, Ordering};
 use std::sync::{Arc, Mutex};
-use std::task::{Context, Poll};
+use std::task::{Context, Poll, Waker};
 use tower::{Layer, Service};
 use tower_resilience_coalesce::{CoalesceError, CoalesceLayer, CoalesceService};
 
@@ -260,6 +267,551 @@ impl Mw for Adapter {
                 let args = Kv(kv.0.iter().filter(|(k, _)| k == "inner").cloned().collect());
                 self.sh().hooks.insert(c as usize, (c2 as usize, args, kv.u64("thread", 0) == 1));
             }
+        } else if what == "herd" {
+            herd(kv);
         }
     }
+}
+
+// ------------------------------------------------------------------ simultaneous arrivals on real OS threads
+
+/// the real monotonic clock (the libc symbol `clock_gettime` is interposed and shows virtual time)
+fn real_ns() -> u64 {
+    let mut ts = libc::timespec { tv_sec: 0, tv_nsec: 0 };
+    unsafe {
+        libc::syscall(libc::SYS_clock_gettime, libc::CLOCK_MONOTONIC, &mut ts as *mut libc::timespec);
+    }
+    ts.tv_sec as u64 * 1_000_000_000 + ts.tv_nsec as u64
+}
+
+thread_local! {
+    /// set by a herd thread just before `Service::call`, cleared by the first gate it passes (one-shot)
+    static ARMED: Cell<bool> = const { Cell::new(false) };
+}
+
+#[derive(Clone, Copy, PartialEq, Eq, Debug)]
+enum GateAt {
+    None,
+    Clone,
+    Hash,
+}
+
+/// A TIMED rendezvous inside the key type's `Clone` / `Hash`: the first time an armed thread gets there during
+/// `call()` it waits until all threads of the round have got there too — or until `timeout_ns` of real time have
+/// passed, after which the gate is open for the rest of the round (so an implementation that performs the
+/// lookup under an exclusive lock, where the others cannot get there, merely loses `timeout_ns` per round).
+struct Gate {
+    at: GateAt,
+    parties: usize,
+    timeout_ns: u64,
+    arrived: AtomicUsize,
+    broken: AtomicBool,
+    /// rounds in which all parties met / in which somebody gave up waiting
+    met: AtomicU64,
+    timeouts: AtomicU64,
+}
+impl Gate {
+    fn pass(&self, at: GateAt) {
+        if at != self.at || !ARMED.with(|a| a.replace(false)) {
+            return;
+        }
+        if self.arrived.fetch_add(1, Ordering::SeqCst) + 1 >= self.parties {
+            if !self.broken.load(Ordering::Acquire) {
+                self.met.fetch_add(1, Ordering::Relaxed);
+            }
+            return;
+        }
+        let t0 = real_ns();
+        let mut spins = 0u32;
+        loop {
+            if self.arrived.load(Ordering::Acquire) >= self.parties || self.broken.load(Ordering::Acquire) {
+                return;
+            }
+            spins += 1;
+            if spins % 64 == 0 {
+                if real_ns().saturating_sub(t0) > self.timeout_ns {
+                    if !self.broken.swap(true, Ordering::SeqCst) {
+                        self.timeouts.fetch_add(1, Ordering::Relaxed);
+                    }
+                    return;
+                }
+                std::thread::yield_now();
+            } else {
+                std::hint::spin_loop();
+            }
+        }
+    }
+    fn reset(&self) {
+        self.arrived.store(0, Ordering::SeqCst);
+        self.broken.store(false, Ordering::SeqCst);
+    }
+}
+
+/// key of the herd instance: a number; its `Clone` (called by `CoalesceService::call` before the look-up) and its
+/// `Hash` (called by the map during the look-up, provided the map is not empty) pass through the gate
+struct GKey {
+    k: u64,
+    gate: Arc<Gate>,
+}
+impl Clone for GKey {
+    fn clone(&self) -> GKey {
+        self.gate.pass(GateAt::Clone);
+        GKey { k: self.k, gate: self.gate.clone() }
+    }
+}
+impl Hash for GKey {
+    fn hash<H: Hasher>(&self, h: &mut H) {
+        self.gate.pass(GateAt::Hash);
+        self.k.hash(h)
+    }
+}
+impl PartialEq for GKey {
+    fn eq(&self, o: &GKey) -> bool {
+        self.k == o.k
+    }
+}
+impl Eq for GKey {}
+
+struct HReq {
+    key: u64,
+    tid: usize,
+    round: u64,
+    fail: bool,
+}
+#[derive(Clone)]
+struct HResp(u64);
+#[derive(Clone)]
+struct HErr(u64);
+
+#[derive(Default)]
+struct HerdShared {
+    serial: AtomicU64,
+    /// inner calls of rounds <= `release` may finish
+    release: AtomicU64,
+    /// unfinished inner calls: key -> (serial, thread)
+    fly: Mutex<BTreeMap<u64, Vec<(u64, usize)>>>,
+    /// inner calls started in the current round: (key, serial, thread)
+    started: Mutex<Vec<(u64, u64, usize)>>,
+}
+impl HerdShared {
+    fn ended(&self, key: u64, serial: u64) {
+        if let Some(v) = self.fly.lock().unwrap_or_else(|e| e.into_inner()).get_mut(&key) {
+            v.retain(|(s, _)| *s != serial);
+        }
+    }
+}
+/// inner service of the herd instance: every call is recorded and stays pending until its round is released
+#[derive(Clone)]
+struct HerdInner(Arc<HerdShared>);
+struct HerdFut {
+    sh: Arc<HerdShared>,
+    key: u64,
+    serial: u64,
+    round: u64,
+    fail: bool,
+    done: bool,
+}
+impl Service<HReq> for HerdInner {
+    type Response = HResp;
+    type Error = HErr;
+    type Future = HerdFut;
+    fn poll_ready(&mut self, _cx: &mut Context<'_>) -> Poll<Result<(), HErr>> {
+        Poll::Ready(Ok(()))
+    }
+    fn call(&mut self, r: HReq) -> HerdFut {
+        let serial = self.0.serial.fetch_add(1, Ordering::SeqCst);
+        self.0.fly.lock().unwrap_or_else(|e| e.into_inner()).entry(r.key).or_default().push((serial, r.tid));
+        self.0.started.lock().unwrap_or_else(|e| e.into_inner()).push((r.key, serial, r.tid));
+        HerdFut { sh: self.0.clone(), key: r.key, serial, round: r.round, fail: r.fail, done: false }
+    }
+}
+impl Future for HerdFut {
+    type Output = Result<HResp, HErr>;
+    fn poll(mut self: Pin<&mut Self>, _cx: &mut Context<'_>) -> Poll<Self::Output> {
+        if self.sh.release.load(Ordering::Acquire) < self.round {
+            return Poll::Pending; // polled by hand
+        }
+        self.done = true;
+        self.sh.ended(self.key, self.serial);
+        Poll::Ready(if self.fail { Err(HErr(self.serial)) } else { Ok(HResp(self.serial)) })
+    }
+}
+impl Drop for HerdFut {
+    fn drop(&mut self) {
+        if !self.done {
+            self.sh.ended(self.key, self.serial);
+        }
+    }
+}
+
+/// what a herd thread received
+#[derive(Clone, Debug, PartialEq)]
+enum Got {
+    Ok(u64),
+    Err(u64),
+    Cancelled,
+    Recv,
+    NotReady,
+    Stuck,
+}
+impl std::fmt::Display for Got {
+    fn fmt(&self, f: &mut std::fmt::Formatter<'_>) -> std::fmt::Result {
+        match self {
+            Got::Ok(s) => write!(f, "ok:{}", s),
+            Got::Err(s) => write!(f, "err:inner:{}", s),
+            Got::Cancelled => write!(f, "err:leader_cancelled"),
+            Got::Recv => write!(f, "err:recv_error"),
+            Got::NotReady => write!(f, "notready"),
+            Got::Stuck => write!(f, "<still pending 20 s after the inner call was released>"),
+        }
+    }
+}
+
+struct Lanes {
+    /// the round the threads may start (0: none yet); `u64::MAX`: stop
+    round: AtomicU64,
+    returned: AtomicUsize,
+    finished: AtomicUsize,
+    got: Mutex<Vec<Option<Got>>>,
+}
+
+/// wait for `cond`: spin briefly (the normal case: the other threads are running, the wait is shorter than a
+/// microsecond), then give the processor away between looks (oversubscribed machine); `false` at the deadline
+fn spin_until(mut cond: impl FnMut() -> bool, deadline_ns: u64) -> bool {
+    let mut spins = 0u32;
+    let mut t0 = 0u64;
+    loop {
+        if cond() {
+            return true;
+        }
+        spins = spins.wrapping_add(1);
+        if spins < 2000 {
+            std::hint::spin_loop();
+            continue;
+        }
+        if spins % 256 == 0 {
+            let now = real_ns();
+            if t0 == 0 {
+                t0 = now;
+            } else if now - t0 > deadline_ns {
+                return false;
+            }
+        }
+        std::thread::yield_now();
+    }
+}
+
+/// One herd run at a time on this machine: the check runs a dozen harness processes side by side, and a race
+/// between N spinning threads is only a race if they have N processors (oversubscribed, every rendezvous costs a
+/// scheduler quantum: measured 20x slower, and the arrivals are no longer simultaneous). Advisory `flock` on a
+/// file in the temp directory, released when the descriptor is closed (also if the process dies); if the file
+/// cannot be opened the run goes ahead without it.
+struct HerdLock(libc::c_int);
+impl HerdLock {
+    fn acquire() -> HerdLock {
+        let path = std::env::temp_dir().join("trh-herd.lock");
+        let Ok(c) = std::ffi::CString::new(path.to_string_lossy().as_bytes()) else { return HerdLock(-1) };
+        let fd = unsafe { libc::open(c.as_ptr(), libc::O_CREAT | libc::O_RDWR | libc::O_CLOEXEC, 0o666) };
+        if fd >= 0 {
+            unsafe { libc::flock(fd, libc::LOCK_EX) };
+        }
+        HerdLock(fd)
+    }
+}
+impl Drop for HerdLock {
+    fn drop(&mut self) {
+        if self.0 >= 0 {
+            unsafe { libc::close(self.0) };
+        }
+    }
+}
+
+const HERD_DEADLINE_NS: u64 = 20_000_000_000;
+const BALLAST_KEY: u64 = u64::MAX;
+
+fn herd_thread<Sv>(svc: Sv, tid: usize, keys: usize, out: u8, lanes: Arc<Lanes>, sh: Arc<HerdShared>)
+where
+    Sv: Service<HReq, Response = HResp, Error = CoalesceError<HErr>> + Clone,
+{
+    let mut cx = Context::from_waker(Waker::noop());
+    let mut seen = 0u64;
+    loop {
+        // the start line
+        let mut r = 0;
+        spin_until(
+            || {
+                r = lanes.round.load(Ordering::Acquire);
+                r != seen
+            },
+            u64::MAX,
+        );
+        if r == u64::MAX {
+            return;
+        }
+        seen = r;
+        let key = 1 + (tid % keys) as u64;
+        let fail = out == 1 || (out == 2 && r % 2 == 1);
+        // the way `svc.clone().oneshot(req)` does it: a handle of its own, readied, called
+        let mut s = svc.clone();
+        let ready = matches!(s.poll_ready(&mut cx), Poll::Ready(Ok(())));
+        let mut fut = if ready {
+            ARMED.with(|a| a.set(true));
+            let f = s.call(HReq { key, tid, round: r, fail });
+            ARMED.with(|a| a.set(false));
+            Some(Box::pin(f))
+        } else {
+            None
+        };
+        lanes.returned.fetch_add(1, Ordering::SeqCst);
+        // every thread of the round is back from `call()`: the coordinator looks, then lets the inner calls finish
+        spin_until(|| sh.release.load(Ordering::Acquire) >= r, u64::MAX);
+        let got = match fut.as_mut() {
+            None => Got::NotReady,
+            Some(f) => {
+                let mut res = None;
+                let ok = spin_until(
+                    || match f.as_mut().poll(&mut cx) {
+                        Poll::Ready(x) => {
+                            res = Some(x);
+                            true
+                        }
+                        Poll::Pending => false,
+                    },
+                    HERD_DEADLINE_NS,
+                );
+                match (ok, res) {
+                    (true, Some(Ok(x))) => Got::Ok(x.0),
+                    (true, Some(Err(CoalesceError::Service(e)))) => Got::Err(e.0),
+                    (true, Some(Err(CoalesceError::LeaderCancelled))) => Got::Cancelled,
+                    (true, Some(Err(CoalesceError::RecvError))) => Got::Recv,
+                    _ => Got::Stuck,
+                }
+            }
+        };
+        drop(fut);
+        drop(s);
+        lanes.got.lock().unwrap_or_else(|e| e.into_inner())[tid] = Some(got);
+        lanes.finished.fetch_add(1, Ordering::SeqCst);
+    }
+}
+
+/// `manual herd threads=<N> rounds=<R> [keys=<M>] [gate=none|clone|hash] [ballast=0|1] [out=ok|err|mix] [gate_us=<T>]`
+///
+/// A bounded SEARCH on real OS threads for executions in which the election of a key's leader is not atomic. A
+/// fresh `CoalesceLayer` (public builder) over an inner service whose calls stay pending until released; N
+/// threads, each with a clone of the service; per round all of them are released together from a start line
+/// (they spin on the round counter) and do `svc.clone()`, `poll_ready`, `call(req)` — thread t for key 1 + t mod M.
+/// Only when ALL of them have returned from `call()` are the inner calls allowed to finish; then every thread
+/// polls its own future to completion. So in every round all N requests of a key arrive while the first one's
+/// inner call is in flight, and the clauses of the property say exactly what must be seen (the oracles):
+///   1. per key, exactly ONE inner call was started and is unfinished when all threads are back from `call()`
+///      ("at most one call to the wrapped service in flight per key"; 0 would mean the request was not forwarded);
+///   2. every request of that key receives that call's result — the same serial number, `Ok` or the inner error —
+///      never `leader_cancelled`, never another call's result, never nothing.
+/// The keys are reused in the next round, so a key left registered shows as a round with 0 inner calls.
+///
+/// `gate=` widens the race window from inside `call()`, through the key type (which, like the key extractor, is
+/// the user's): `clone`: the threads meet in `K::clone`, i.e. immediately before the look-up (no lock can be
+/// held there); `hash`: they meet in `K::hash`, i.e. INSIDE the look-up (the map is kept non-empty by a
+/// permanently in-flight request for another key, `ballast=1`, because hashbrown does not hash on an empty map).
+/// Where the look-up and the registration are one critical section under an exclusive lock only one thread can
+/// be there at a time: the first one waits `gate_us` (real time), gives up, and the round proceeds as an
+/// ordinary race — the rendezvous is timed, it cannot deadlock. Where the look-up admits several threads at
+/// once (a read lock, a lock-free read) they all meet inside it and have all seen "vacant" when they go on:
+/// a deterministic schedule. `gate=none`: plain race from the start line.
+///
+/// Compared line: `herd rounds=<performed> calls=<N*R> inner=<inner calls> shared=<requests that received the
+/// result of the (first) call of their key and round> anomalies=<violating rounds>`; meta `#herd …` (always) and
+/// `#herd-fail …` (first violating round in full: a concrete replay). A clean run proves nothing.
+fn herd(kv: &Kv) {
+    let threads = kv.u64("threads", 4).clamp(2, 32) as usize;
+    let rounds = kv.u64("rounds", 100).clamp(1, 5_000_000);
+    let keys = (kv.u64("keys", 1).max(1) as usize).min(threads);
+    let at = match kv.str("gate", "none").as_str() {
+        "clone" => GateAt::Clone,
+        "hash" => GateAt::Hash,
+        _ => GateAt::None,
+    };
+    let ballast = kv.u64("ballast", 1) == 1;
+    let out = match kv.str("out", "ok").as_str() {
+        "err" => 1u8,
+        "mix" => 2,
+        _ => 0,
+    };
+    let gate = Arc::new(Gate {
+        at,
+        parties: threads,
+        timeout_ns: kv.u64("gate_us", 3000).clamp(10, 1_000_000) * 1000,
+        arrived: AtomicUsize::new(0),
+        broken: AtomicBool::new(false),
+        met: AtomicU64::new(0),
+        timeouts: AtomicU64::new(0),
+    });
+    let sh = Arc::new(HerdShared::default());
+    let lanes = Arc::new(Lanes {
+        round: AtomicU64::new(0),
+        returned: AtomicUsize::new(0),
+        finished: AtomicUsize::new(0),
+        got: Mutex::new(vec![None; threads]),
+    });
+    let g = gate.clone();
+    let layer = CoalesceLayer::builder(move |r: &HReq| GKey { k: r.key, gate: g.clone() }).name("herd").build();
+    let svc = layer.layer(HerdInner(sh.clone()));
+    let cfg = format!(
+        "threads={} rounds={} keys={} gate={} ballast={} out={}",
+        threads,
+        rounds,
+        keys,
+        kv.str("gate", "none"),
+        ballast as u8,
+        kv.str("out", "ok")
+    );
+    let _exclusive = HerdLock::acquire();
+    let t0 = real_ns();
+    // another key permanently in flight: the map is never empty
+    let mut cx = Context::from_waker(Waker::noop());
+    let ballast_fut = if ballast {
+        let mut s = svc.clone();
+        let _ = s.poll_ready(&mut cx);
+        Some(Box::pin(s.call(HReq { key: BALLAST_KEY, tid: usize::MAX, round: u64::MAX - 1, fail: false })))
+    } else {
+        None
+    };
+    sh.started.lock().unwrap().clear();
+    let first_serial = sh.serial.load(Ordering::SeqCst);
+    let mut handles = Vec::new();
+    let mut spawn_failed = false;
+    for tid in 0..threads {
+        let (s, l, h) = (svc.clone(), lanes.clone(), sh.clone());
+        match std::thread::Builder::new().name(format!("herd-{}", tid)).spawn(move || herd_thread(s, tid, keys, out, l, h)) {
+            Ok(h) => handles.push(h),
+            Err(_) => spawn_failed = true,
+        }
+    }
+    let stop = |handles: Vec<std::thread::JoinHandle<()>>, join: bool| {
+        lanes.round.store(u64::MAX, Ordering::SeqCst);
+        sh.release.store(u64::MAX, Ordering::SeqCst);
+        if join {
+            for h in handles {
+                let _ = h.join();
+            }
+        }
+    };
+    if spawn_failed {
+        stop(handles, true);
+        log_raw("#harness-panic herd: could not create the threads".into());
+        return;
+    }
+    let (mut performed, mut inner, mut shared, mut bad_rounds) = (0u64, 0u64, 0u64, 0u64);
+    let mut first_fail: Option<String> = None;
+    let mut max_leaders = 0usize;
+    for r in 1..=rounds {
+        gate.reset();
+        lanes.returned.store(0, Ordering::SeqCst);
+        lanes.finished.store(0, Ordering::SeqCst);
+        sh.started.lock().unwrap_or_else(|e| e.into_inner()).clear();
+        lanes.round.store(r, Ordering::Release);
+        if !spin_until(|| lanes.returned.load(Ordering::Acquire) >= threads, HERD_DEADLINE_NS) {
+            let back = lanes.returned.load(Ordering::SeqCst);
+            stop(handles, false); // the stuck threads are abandoned
+            log_raw(format!("#herd {} performed={} aborted=1", cfg, performed));
+            log_raw(format!(
+                "#herd-fail {} :: round {}: only {} of {} threads returned from Service::call within 20 s (the others are stuck inside it) :: replay: manual herd {}",
+                cfg, r, back, threads, cfg.replace(&format!("rounds={}", rounds), &format!("rounds={}", r))
+            ));
+            log(format!("herd rounds={} calls={} inner={} shared={} anomalies={}", performed, performed * threads as u64, inner, shared, bad_rounds + 1));
+            return;
+        }
+        // all threads are back from `call()`, no inner call may have finished: look
+        let started: Vec<(u64, u64, usize)> = sh.started.lock().unwrap_or_else(|e| e.into_inner()).clone();
+        let flying: BTreeMap<u64, Vec<(u64, usize)>> = sh.fly.lock().unwrap_or_else(|e| e.into_inner()).clone();
+        sh.release.store(r, Ordering::Release);
+        spin_until(|| lanes.finished.load(Ordering::Acquire) >= threads, u64::MAX);
+        let got: Vec<Option<Got>> = {
+            let mut g = lanes.got.lock().unwrap_or_else(|e| e.into_inner());
+            let v = g.clone();
+            g.iter_mut().for_each(|x| *x = None);
+            v
+        };
+        performed += 1;
+        inner += started.len() as u64;
+        let fail = out == 1 || (out == 2 && r % 2 == 1);
+        let mut why: Vec<String> = Vec::new();
+        for key in 1..=keys as u64 {
+            let askers: Vec<usize> = (0..threads).filter(|t| 1 + (t % keys) as u64 == key).collect();
+            let calls: Vec<(u64, usize)> = started.iter().filter(|x| x.0 == key).map(|x| (x.1, x.2)).collect();
+            let unfinished = flying.get(&key).map(|v| v.len()).unwrap_or(0);
+            max_leaders = max_leaders.max(unfinished);
+            if calls.len() != 1 || unfinished != 1 {
+                why.push(format!(
+                    "{} requests for key {} (threads {:?}) were inside Service::call at the same time and {} inner call(s) were started for it ({}), {} of them in flight together when all threads had returned — the property allows exactly one",
+                    askers.len(),
+                    key,
+                    askers,
+                    calls.len(),
+                    calls.iter().map(|(s, t)| format!("call {} by thread {}", s, t)).collect::<Vec<_>>().join(", "),
+                    unfinished
+                ));
+            }
+            let want = calls.iter().map(|x| x.0).min().map(|s| if fail { Got::Err(s) } else { Got::Ok(s) });
+            let mut wrong: Vec<String> = Vec::new();
+            for t in &askers {
+                let g = got[*t].clone().unwrap_or(Got::Stuck);
+                if Some(&g) == want.as_ref() {
+                    shared += 1;
+                } else {
+                    wrong.push(format!("thread {} received {}", t, g));
+                }
+            }
+            if !wrong.is_empty() {
+                why.push(format!(
+                    "key {}: every request must receive {} (the result of the call in flight for its key), but {}",
+                    key,
+                    want.map(|w| w.to_string()).unwrap_or_else(|| "the result of one inner call".into()),
+                    wrong.join(", ")
+                ));
+            }
+        }
+        if !why.is_empty() {
+            bad_rounds += 1;
+            if first_fail.is_none() {
+                first_fail = Some(format!(
+                    "round {}: {} :: replay: manual herd {}",
+                    r,
+                    why.join(" | "),
+                    cfg.replace(&format!("rounds={}", rounds), &format!("rounds={}", r))
+                ));
+            }
+        }
+    }
+    stop(handles, true);
+    drop(ballast_fut);
+    drop(svc);
+    drop(layer);
+    let _ = first_serial;
+    let wall = (real_ns() - t0) / 1000;
+    log_raw(format!(
+        "#herd {} performed={} wall_us={} met={} gate_timeouts={} max_in_flight_per_key={} bad_rounds={}",
+        cfg,
+        performed,
+        wall,
+        gate.met.load(Ordering::SeqCst),
+        gate.timeouts.load(Ordering::SeqCst),
+        max_leaders,
+        bad_rounds
+    ));
+    if let Some(f) = first_fail {
+        log_raw(format!(
+            "#herd-fail {} :: {} :: totals: {} of {} rounds violated, {} inner calls for {} (key, round) pairs, {} of {} requests received the result of their key's call",
+            cfg,
+            f,
+            bad_rounds,
+            performed,
+            inner,
+            performed * keys as u64,
+            shared,
+            performed * threads as u64
+        ));
+    }
+    log(format!("herd rounds={} calls={} inner={} shared={} anomalies={}", performed, performed * threads as u64, inner, shared, bad_rounds));
 }
